@@ -21,7 +21,7 @@ def mpath(t, indir):
     return "%s/m%d" % (DIRNAME, t) if t in indir else "m%d" % t
 
 
-def import_lines(imps, indir, marker=None):
+def import_lines(imps, indir, marker=None, frm=None):
     """one statement per entry; a run of entries with via == "dir" is ONE directory import (its meaning: every module of the directory, in name order)"""
     lines = []
     for k, t in enumerate(imps, 1):
@@ -29,18 +29,22 @@ def import_lines(imps, indir, marker=None):
             continue
         if marker:
             lines.append(marker % (100 + k))
+        # paths are relative to the importing file: a module inside teile/ reaches the others through ../
+        path = mpath(t["t"], indir)
+        if frm is not None and frm in indir:
+            path = ("m%d" % t["t"]) if t["t"] in indir else "../" + path
         if t.get("via") == "dir":
-            lines.append('Binde alle Module aus "%s" ein.' % DIRNAME)
+            lines.append('Binde alle Module aus "%s" ein.' % (DIRNAME if not (frm is not None and frm in indir) else "../" + DIRNAME))
         elif t["sel"] == "all":
-            lines.append('Binde "%s" ein.' % mpath(t["t"], indir))
+            lines.append('Binde "%s" ein.' % path)
         else:
-            lines.append('Binde %s%d aus "%s" ein.' % (SELNAME[t["sel"]], t["t"], mpath(t["t"], indir)))
+            lines.append('Binde %s%d aus "%s" ein.' % (SELNAME[t["sel"]], t["t"], path))
     return lines
 
 
 def module_src(k, imps, indir=()):
     lines = ['Binde "Duden/Ausgabe" ein.']
-    lines += import_lines(imps, indir)
+    lines += import_lines(imps, indir, frm=k)
     lines += ["Die Funktion helfer gibt eine Zahl zurück, macht:", '\tSchreibe "h%d ".' % k, "\tGib %d zurück." % k, "Und kann so benutzt werden:", '\t"hilf mir"', "",
               "Die öffentliche Zahl wert%d ist hilf mir." % k, "Die Zahl geheim%d ist 100 plus %d." % (k, k),
               "Die öffentliche Funktion zeige%d gibt eine Zahl zurück, macht:" % k,
@@ -114,6 +118,11 @@ def graphs(tier, rng):
     D = [dict(t=2, sel="all", cont=False, via="dir"), dict(t=3, sel="all", cont=True, via="dir")]
     for imp in ([[F(1)], D, [], []], [D, [], [], []], [[F(1)] + D, D, [], []], [[F(2), F(1)], D, [], []], [D + [F(1)], D, [], []], [[F(1), F(3)], D, [], []],
                 [[dict(t=1, sel="fn", cont=False)], D, [], []]):
+        res.append(dict(n=4, dir=[2, 3], imp=[[dict(e) for e in l] for l in imp]))
+    # cycles through a directory: a module inside teile/ imports a module outside that imports the whole directory (the closing
+    # edge of the cycle is the directory import), or the other way round
+    for imp in ([[F(2)], D, [F(1)], []], [[F(3)], D, [], [F(1)]], [[F(1)], D, [F(1)], []], [[F(1)], D, [], [F(1)]], [[F(2)], D, [F(3)], [F(1)]], [[F(2)], [], [F(1)], []],
+                [[F(2), F(1)], D, [F(1)], []]):
         res.append(dict(n=4, dir=[2, 3], imp=[[dict(e) for e in l] for l in imp]))
     # duplicates out
     seen, uniq = set(), []
@@ -209,6 +218,41 @@ def run(tier):
                 recs.append(dict(e="run", out=toks, raw=text[:200], code=rr["code"]))
             for j, name, vis in probes.get(i, []):
                 recs.append(dict(e="probe", j=j, name=name, visible=vis))
+    # imports that do not stand at the top level: inside a function called 0..3 times, inside a loop, inside a Wenn
+    once_meta = {}
+    nested = {}
+    for calls in (0, 1, 2, 3):
+        nested["function-body:%d-calls" % calls] = ['Binde "Duden/Ausgabe" ein.', "Die Funktion lade gibt nichts zurück, macht:", '\tBinde "m1" ein.', '\tSchreibe "s1 ".', "Und kann so benutzt werden:", '\t"lade"'] + ["lade."] * calls
+    nested["loop-body"] = ['Binde "Duden/Ausgabe" ein.', "Wiederhole:", '\tBinde "m1" ein.', '\tSchreibe "s1 ".', "3 Mal."]
+    nested["wenn-body"] = ['Binde "Duden/Ausgabe" ein.', "Wenn wahr, dann:", '\tBinde "m1" ein.', '\tSchreibe "s1 ".', 'Binde "m1" ein.', 'Schreibe "s2 ".']
+    nested["function-body-and-top-level"] = ['Binde "Duden/Ausgabe" ein.', 'Binde "m1" ein.', "Die Funktion lade gibt nichts zurück, macht:", '\tBinde "m1" ein.', '\tSchreibe "s1 ".', "Und kann so benutzt werden:", '\t"lade"', "lade.", "lade."]
+    nj = [dict(files={"main.ddp": "\n".join(ls) + "\n", "m1.ddp": module_src(1, [])}, main="main.ddp") for ls in nested.values()]
+    nans = pool.run(nj)
+
+    def nested_run(item):
+        (name, ls), job, a = item
+        r = a["runs"][0] if a.get("runs") else None
+        if not r or r.get("panic") or r.get("err") or any(d["lvl"] == "err" for d in r["diags"]):
+            return name, None, job      # rejected (or crashed: C03's subject): nothing runs
+        d = runner.newdir()
+        for rel, c in job["files"].items():
+            open(os.path.join(d, rel), "w").write(c)
+        ok, stage, msg, exe = runner.build(d, "main.ddp", opt=1)
+        if not ok:
+            return name, "not-built", job
+        return name, runner.execute(exe), job
+    with ThreadPoolExecutor(max_workers=8) as ex:
+        for name, rr, job in ex.map(nested_run, zip(nested.items(), nj, nans)):
+            if rr is None:
+                ck.cov.setdefault("nested_imports_rejected", []).append(name)
+                continue
+            if rr == "not-built":
+                ck.fail("C10:not-compiled:nested-import:%s" % name, "a program with an import statement inside a %s is accepted but does not compile" % name, dict(files=job["files"]))
+                continue
+            text = rr["out"].decode("utf-8", "replace")
+            once_meta[len(recs)] = (name, job["files"], text)
+            recs.append(dict(e="once", inits=[int(m.group(1)) for m in re.finditer(r"h(\d+) ", text)]))
+    ck.cov["nested_import_programs"] = len(once_meta)
     orig = vlib.split_chunks
     try:
         vlib.split_chunks = lambda records, n, is_start=None: orig(records, n, lambda r: r.get("e") == "graph")
@@ -226,6 +270,10 @@ def run(tier):
     ck.cov["tlc_runs"].append(dict(name="ModulesTrace", lines=st["lines"], wall_s=round(st["wall"], 1)))
     sidx = [s for s, _ in starts]
     for i in res["bad"]:
+        if i in once_meta:
+            name, files, text = once_meta[i]
+            ck.fail("C10:once:import-in-%s" % name.split(":")[0], "an import statement inside a %s: the initialiser of the imported module ran more than once (output %r)" % (name, text[:120]), dict(files=files, observed=text))
+            continue
         j = bisect.bisect_right(sidx, i) - 1
         gi = starts[j][1]
         g = gs[gi]
